@@ -1,13 +1,14 @@
 #!/usr/bin/env python3
-"""usage: mark_fixed.py <PROP> <commit> <key-substring> [<key-substring>...] : set status=fixed on matching findings"""
+"""usage: mark_fixed.py <PROP> <commit> <key-substring>... : set status=fixed (+commit, record line) on matching entries of known_findings.json"""
 import json, sys, os
 ROOT = os.path.dirname(os.path.dirname(os.path.abspath(__file__)))
 prop, commit, subs = sys.argv[1], sys.argv[2], sys.argv[3:]
-p = os.path.join(ROOT, "findings", prop + ".json")
-d = json.load(open(p)) if os.path.exists(p) else {"findings": []}
+p = os.path.join(ROOT, "known_findings.json")
+d = json.load(open(p))
 n = 0
 for f in d["findings"]:
-    if any(s in f["key"] for s in subs) and f.get("status") != "fixed":
-        f["status"] = "fixed"; f["commit"] = commit; n += 1
+    if f["property"] == prop and any(s in f["key"] for s in subs) and f.get("status") != "fixed":
+        f["status"] = "fixed"; f["commit"] = commit
+        f["record"] = "fixed: property=%s %s %s" % (prop, commit, f["what"][:300]); n += 1
 json.dump(d, open(p, "w"), indent=1)
 print(prop, "marked fixed:", n)
